@@ -192,6 +192,14 @@ theorem insert_never_overrides (s : State) (hr : Reach s) (n : Nat) (x : State Ã
     simp only at hst; subst hst
     simp at hs
 
+/-- `x.first_key_value().unwrap()` in the insertion closure of `request` cannot panic: the map is non-empty right
+after the insertion. -/
+theorem insert_unwrap_never_panics (m : List (Nat Ã— Nat)) (n ch : Nat) : minKey (aput m n ch) â‰  none := by
+  intro h
+  have h0 := (minKey_eq_none _).mp h
+  have : aget (aput m n ch) n = some ch := by rw [aget_aput]; simp
+  rw [h0] at this; simp [aget] at this
+
 /-- **map_entries_are_live_requests.** Every block the queue offers belongs to a live request that waits on exactly
 that channel (completion and cancellation leave nothing behind). -/
 theorem map_entries_are_live_requests (s : State) (hr : Reach s) (n ch : Nat) (hm : aget s.map n = some ch) :
